@@ -1,6 +1,9 @@
 //! C19 ops: the witness-graph operators, Montgomery (`eval_fr`) and integer (`eval`) evaluators.
 use crate::util::*;
-use rln::circuit::iden3calc::graph::{fr_to_u256, Operation, TresOperation, UnoOperation};
+use rln::circuit::iden3calc::graph::{self, fr_to_u256, Node, Operation, TresOperation, UnoOperation};
+use rln::circuit::iden3calc::storage::{deserialize_witnesscalc_graph, serialize_witnesscalc_graph};
+use rln::circuit::iden3calc::{calc_witness, InputSignalsInfo};
+use rln::circuit::Fr;
 use ruint::aliases::U256;
 
 pub fn parse_op(s: &str) -> Option<Operation> {
@@ -29,8 +32,98 @@ pub fn u256_hex(v: &U256) -> String {
 pub const OPS: [&str; 20] = ["Mul", "Div", "Add", "Sub", "Pow", "Idiv", "Mod", "Eq", "Neq", "Lt", "Gt", "Leq", "Geq",
     "Land", "Lor", "Shl", "Shr", "Bor", "Band", "Bxor"];
 
+/// `I:3;M:ff;C:ff;D:Add:1:2;U:Neg:4;T:1:2:3` -> nodes
+pub fn parse_nodes(s: &str) -> Option<Vec<Node>> {
+    if s == "-" {
+        return Some(vec![]);
+    }
+    s.split(';')
+        .map(|t| {
+            let f: Vec<&str> = t.split(':').collect();
+            Some(match (f[0], f.len()) {
+                ("I", 2) => Node::Input(parse_usize(f[1])?),
+                ("M", 2) => Node::MontConstant(parse_fr(f[1])?),
+                ("C", 2) => Node::Constant(parse_u256(f[1])?),
+                ("D", 4) => Node::Op(parse_op(f[1])?, parse_usize(f[2])?, parse_usize(f[3])?),
+                ("U", 3) => Node::UnoOp(parse_uno(f[1])?, parse_usize(f[2])?),
+                ("T", 4) => Node::TresOp(TresOperation::TernCond, parse_usize(f[1])?, parse_usize(f[2])?, parse_usize(f[3])?),
+                _ => return None,
+            })
+        })
+        .collect()
+}
+
+fn parse_ulist(s: &str) -> Option<Vec<usize>> {
+    if s == "-" {
+        return Some(vec![]);
+    }
+    s.split(',').map(parse_usize).collect()
+}
+
+fn show_frs(v: &[Fr]) -> String {
+    format!("[{}]", v.iter().map(fr_hex).collect::<Vec<_>>().join(","))
+}
+
 pub fn exec(w: &[&str]) -> Option<String> {
     match (w[0], w.len()) {
+        // graph eval <nodes> <input buffer values> <outputs>: graph::evaluate on a given buffer
+        ("graph", 5) if w[1] == "eval" => {
+            let nodes = parse_nodes(w[2])?;
+            let inputs: Vec<U256> = if w[3] == "-" { vec![] } else { w[3].split(',').map(parse_u256).collect::<Option<_>>()? };
+            let outs = parse_ulist(w[4])?;
+            Some(show_frs(&graph::evaluate(&nodes, &inputs, &outs)))
+        }
+        // graph calc <nodes> <signals> <name:off:len,...> <name=v,v;...>: container round trip, then calc_witness
+        ("graph", 6) if w[1] == "calc" || w[1] == "store" => {
+            let nodes = parse_nodes(w[2])?;
+            let sigs = parse_ulist(w[3])?;
+            let mut info = InputSignalsInfo::new();
+            if w[4] != "-" {
+                for e in w[4].split(',') {
+                    let f: Vec<&str> = e.split(':').collect();
+                    info.insert(f[0].to_string(), (parse_usize(f[1])?, parse_usize(f[2])?));
+                }
+            }
+            let mut bytes = Vec::new();
+            if serialize_witnesscalc_graph(&mut bytes, &nodes, &sigs, &info).is_err() {
+                return Some("err".into());
+            }
+            if w[1] == "store" {
+                // the stored container and whether reading it back gives an equal graph, signal list and input map
+                return Some(match deserialize_witnesscalc_graph(std::io::Cursor::new(&bytes)) {
+                    Ok((n2, s2, i2)) => format!("same={} bytes={}", n2 == nodes && s2 == sigs && i2 == info, show_bytes(&bytes)),
+                    Err(_) => "err".into(),
+                });
+            }
+            let mut inputs: Vec<(String, Vec<Fr>)> = Vec::new();
+            if w[5] != "-" {
+                for e in w[5].split(';') {
+                    let (n, v) = e.split_once('=')?;
+                    let vals: Vec<Fr> = if v.is_empty() { vec![] } else { v.split(',').map(parse_fr).collect::<Option<_>>()? };
+                    inputs.push((n.to_string(), vals));
+                }
+            }
+            Some(show_frs(&calc_witness(inputs, &bytes)))
+        }
+        ("reframe", 3) => {
+            let b = parse_bytes(w[1])?;
+            let n: usize = w[2].parse().ok()?;
+            Some(match deserialize_witnesscalc_graph(std::io::Cursor::new(&b)) {
+                Ok((nodes, _, _)) if nodes.len() == n => "ok".into(),
+                Ok(_) => "mismatch".into(),
+                Err(_) => "unreadable".into(),
+            })
+        }
+        // the bundled graph on named input vectors (any order): the complete witness
+        ("bundled", 2) => {
+            let mut inputs: Vec<(String, Vec<Fr>)> = Vec::new();
+            for e in w[1].split(';') {
+                let (n, v) = e.split_once('=')?;
+                let vals: Vec<Fr> = if v.is_empty() { vec![] } else { v.split(',').map(parse_fr).collect::<Option<_>>()? };
+                inputs.push((n.to_string(), vals));
+            }
+            Some(show_frs(&rln::circuit::calculate_rln_witness(inputs, rln::circuit::graph_from_folder())))
+        }
         // Montgomery evaluator on field elements
         ("op", 4) => {
             let op = parse_op(w[1])?;
